@@ -1,6 +1,7 @@
 import B2Z.Model.Conc
 import B2Z.Props.C11
 import B2Z.Props.C16
+import B2Z.Proofs.Conc
 /-! # C07 — concurrent partition tasks cannot interfere with one another
 
 Model: `B2Z.Conc` (`Model/Conc.lean`) over the protocol models of C05 / C06 and the buffered writes
@@ -16,7 +17,7 @@ variable {Obj : Type} [DecidableEq Obj]
 /-- mutations with disjoint footprints commute -/
 theorem mut_commute (m m' : Mut Obj) (h : Disjoint m.footprint m'.footprint) (s : St Obj) :
     m'.apply (m.apply s) = m.apply (m'.apply s) := by
-  sorry
+  exact Mut.apply_comm m m' h s
 
 /-- mutations of different tasks never touch a common object -/
 def TasksDisjoint (ts : List (List (Mut Obj))) : Prop :=
@@ -28,22 +29,27 @@ def TasksDisjoint (ts : List (List (Mut Obj))) : Prop :=
 theorem C07_any_interleaving_eq_sequential (ts : List (List (Mut Obj))) (zs : List (Mut Obj)) (h : Merge ts zs)
     (hd : TasksDisjoint ts)
     (s : St Obj) : run s zs = run s ts.flatten := by
-  sorry
+  exact merge_eq_seq h hd s
 
 /-- … hence the same as any sequential order of the tasks -/
 theorem C07_any_order (ts ts' : List (List (Mut Obj))) (hp : ts.Perm ts')
     (hd : TasksDisjoint ts)
     (s : St Obj) : run s ts.flatten = run s ts'.flatten := by
-  sorry
+  exact perm_eq_seq hp (pairwise_of_index ts hd) s
 
 /-- explode: the task of partition `j` touches only `wip/p<j>.json` and the private objects of `j` -/
 theorem C07_explode_footprint (c : XP.Cfg) (s : XP.S) (j : Nat) :
     ∀ m ∈ mutsOf (XP.partitionProg c s j), ∀ o ∈ m.footprint, o = XP.Obj.summary j ∨ ∃ k, o = XP.Obj.data j k := by
-  sorry
+  exact explode_footprint c s j
 
 theorem C07_explode_tasks_disjoint (c : XP.Cfg) (s s' : XP.S) (i j : Nat) (hij : i ≠ j) :
     ∀ m ∈ mutsOf (XP.partitionProg c s i), ∀ m' ∈ mutsOf (XP.partitionProg c s' j), Disjoint m.footprint m'.footprint := by
-  sorry
+  intro m hm m' hm' o ho ho'
+  rcases explode_footprint c s i m hm o ho with rfl | ⟨k, rfl⟩ <;>
+    rcases explode_footprint c s' j m' hm' _ ho' with h | ⟨k', h⟩ <;>
+    first
+    | (injection h with h1; exact hij h1)
+    | cases h
 
 /-- a task reads only the plan, the completion marker and its own summary — none of which another
     partition task writes: its program is the same whatever the other tasks have done meanwhile -/
@@ -51,7 +57,20 @@ theorem C07_explode_program_stable (c : XP.Cfg) (s : XP.S) (i j : Nat) (hij : i 
     (hms : ∀ m ∈ ms, ∀ o ∈ m.footprint, o = XP.Obj.summary i ∨ ∃ k, o = XP.Obj.data i k) :
     mutsOf (XP.partitionProg c (run s ms) j) = mutsOf (XP.partitionProg c s j) ∧
     (run s ms) XP.Obj.plan = s XP.Obj.plan ∧ (run s ms) XP.Obj.final = s XP.Obj.final := by
-  sorry
+  have hrun : ∀ o : XP.Obj, (o ≠ XP.Obj.summary i ∧ ∀ k, o ≠ XP.Obj.data i k) → run s ms o = s o := by
+    intro o ho
+    apply run_not_mem
+    intro m hm hmem
+    rcases hms m hm o hmem with h | ⟨k, h⟩
+    · exact ho.1 h
+    · exact ho.2 k h
+  refine ⟨?_, ?_, ?_⟩
+  · rw [explode_prog_congr c s (run s ms) j]
+    apply hrun
+    refine ⟨?_, fun k h => by cases h⟩
+    intro h; injection h with h1; exact hij h1.symm
+  · exact hrun _ ⟨fun h => (by cases h), fun k h => (by cases h)⟩
+  · exact hrun _ ⟨fun h => (by cases h), fun k h => (by cases h)⟩
 
 /-- the private objects of encode partition `j` -/
 def EPPrivate (j : Nat) (o : EP.Obj) : Prop :=
@@ -61,11 +80,12 @@ def EPPrivate (j : Nat) (o : EP.Obj) : Prop :=
 /-- encode: the task of partition `j` touches only `wip_p<j>`, `p<j>` and `stale_p<j>` -/
 theorem C07_encode_footprint (c : EP.Cfg) (s : EP.S) (j : Nat) :
     ∀ m ∈ mutsOf (EP.partitionProg c s j), ∀ o ∈ m.footprint, EPPrivate j o := by
-  sorry
+  exact encode_footprint c s j
 
 theorem C07_encode_tasks_disjoint (c : EP.Cfg) (s s' : EP.S) (i j : Nat) (hij : i ≠ j) :
     ∀ m ∈ mutsOf (EP.partitionProg c s i), ∀ m' ∈ mutsOf (EP.partitionProg c s' j), Disjoint m.footprint m'.footprint := by
-  sorry
+  intro m hm m' hm' o ho ho'
+  exact EPPriv.ne hij (encode_footprint c s i m hm o ho) (encode_footprint c s' j m' hm' o ho')
 
 /-- PLINK: the buffered writes of different chunk-aligned slices touch different Zarr chunks -/
 theorem C07_plink_slices_disjoint {α : Type} (rows c n : Nat) (hr : 0 < rows) (hc : 0 < c) (hn : 0 < n)
@@ -75,7 +95,7 @@ theorem C07_plink_slices_disjoint {α : Type} (rows c n : Nat) (hr : 0 < rows) (
     (hy : ys.length = ((B2Z.chunkAlignedSlices rows c n none)[j]'hj).2 - ((B2Z.chunkAlignedSlices rows c n none)[j]'hj).1) :
     ∀ k ∈ Buf.chunkKeys c (Buf.run c ((B2Z.chunkAlignedSlices rows c n none)[i]'(by omega)).1 xs),
     ∀ k' ∈ Buf.chunkKeys c (Buf.run c ((B2Z.chunkAlignedSlices rows c n none)[j]'hj).1 ys), k < k' := by
-  sorry
+  exact cover_chunkKeys_lt (B2Z.C11_plink_slices rows c n none hr hc hn (by simp)) hc i j hij hj xs ys hx hy
 
 example : Merge [[1, 2], [3]] [1, 3, 2] :=
   .pick 0 1 [2] rfl (.pick 1 3 [] rfl (.pick 0 2 [] rfl (.done (by simp))))
